@@ -12,7 +12,10 @@ import inspect
 import textwrap
 
 
-class SliceError(Exception):
+from .harness import HarnessMismatch
+
+
+class SliceError(HarnessMismatch):
   pass
 
 
